@@ -887,7 +887,7 @@ def run(tier, seed, reg=None):
                   (("text", 2), t2), (("textraw",), t2)]
         wrap_words = "every sequence of 1..2 operations"
     else:
-        wn, wks = 5, (1, 2, 3, None)
+        wn, wks = 5, (1, 2, None)
         b2 = list(itertools.product(OPS_WRAP_BUF, repeat=2))
         b3 = list(itertools.product(OPS_WRAP_BUF, repeat=3))
         t3 = list(itertools.product(OPS_WRAP_TEXT, repeat=3))
